@@ -1048,7 +1048,9 @@ def modifications(rng, M, all_sites):
             if per[t]:
                 sites.append(("cfield", name, t, rng.randrange(len(per[t]))))
     if not all_sites:
+        keep = [x for x in sites if x[0] == "cfield" and " @ " in x[1]]      # (names holding the annotation separator: always tried)
         sites = rng.sample(sites, min(6, len(sites)))
+        sites += [x for x in keep if x not in sites]
     for s in sites:
         N = G.copy_mesh(M)
         if s[0] == "move":
@@ -1117,7 +1119,8 @@ def run_c03(ctx):
             reorder = rng.random() < 0.6
             Nr = G.relabel(rng, N)[0] if reorder else N
             padded = False
-            if M["dim"] < 3 and rng.random() < 0.15 and "t" not in M["pf"]:
+            sep_name = desc[0] == "cfield" and " @ " in desc[1]
+            if M["dim"] < 3 and rng.random() < (0.7 if sep_name else 0.15) and "t" not in M["pf"]:
                 Nr = pad_mesh(Nr)          # the modified data set is stored with zero-padded 3-component coordinates / vectors
                 padded = True
             opts = {}
@@ -1484,6 +1487,11 @@ def structured_variants(rng):
     origin = [Fr(rng.randint(-8, 8)) * sc for _ in range(3)]
     spacing = [Fr(rng.randint(1, 4)) * sc for _ in range(3)]
     ords = [[origin[d] + spacing[d] * i for i in range(ext[d] + 1)] for d in range(3)]
+    int_x = kind == "rect" and sc >= 1 and rng.random() < 0.4
+    if int_x:
+        # the x ordinates are whole numbers and will be handed over as an INTEGER array (np.arange style); y and z are not whole
+        ords[1] = [v + Fr(1, 2) for v in ords[1]]
+        ords[2] = [v + Fr(1, 4) for v in ords[2]]
     where = rng.choice(["none", "none", "meshed", "flat", "spacing", "origin", "near_tol"])
     if long_image:
         where = "spacing_small"
@@ -1547,13 +1555,15 @@ def structured_variants(rng):
     elif kind == "rect":
         # a flat direction at coordinate zero may be given without ordinates (an empty array stands for [0.0])
         empty_ok = rng.random() < 0.4
-        a = RectilinearMesh(tuple(ext), tuple(np.array([]) if (empty_ok and ext[k] == 0 and o[0] == 0) else np.array(f(o))
+        a = RectilinearMesh(tuple(ext), tuple(np.array([]) if (empty_ok and ext[k] == 0 and o[0] == 0) else
+                                              (np.array([int(x) for x in o], dtype=np.int64) if (int_x and k == 0) else np.array(f(o)))
                                               for k, o in enumerate(ords)))
         b = RectilinearMesh(tuple(ext), tuple(np.array(f(o)) for o in ords2))
     else:
         a = StructuredMesh(tuple(ext), np.array([f(p) for p in P1]))
         b = StructuredMesh(tuple(ext), np.array([f(p) for p in P2]))
-    return {"kind": kind, "extents": ext, "changed": changed, "origin": [str(x) for x in origin], "spacing": [str(x) for x in spacing],
+    return {"kind": kind, "extents": ext, "changed": changed, "x_ordinates_integer_typed": bool(int_x),
+            "origin": [str(x) for x in origin], "spacing": [str(x) for x in spacing],
             "origin2": [str(x) for x in o2], "spacing2": [str(x) for x in s2],
             "ordinates": [[str(x) for x in o] for o in ords], "ordinates2": [[str(x) for x in o] for o in ords2]}, a, b, P1, P2
 
@@ -1580,6 +1590,7 @@ def compat_twins(rng, M, N):
 
 
 def run_c16(ctx):
+    from fieldcompare.mesh import Mesh, CellType  # noqa: F811
     from fieldcompare.mesh import Mesh
     try:
         from fieldcompare.mesh._permuted_mesh import PermutedMesh
@@ -1741,6 +1752,55 @@ def run_c16(ctx):
                           f"(tolerance {float(thr):.3g}): changed {canon['changed']}", canon, impl=res)
         elif not res["ab"] and canon["changed"] is None:
             ctx.violation("E4", f"identical {canon['kind']} meshes compare unequal", canon, impl=res)
+        ctx.traces_validated += 1
+    # (1d) polygon blocks with differing corner counts whose CELL BOUNDARIES differ: the same points, equally many polygons, the
+    #      same corners in the same overall sequence — but one polygon hands a corner to its neighbour
+    for it in range(40 if q else 1000):
+        npoly = rng.randint(2, 4)
+        sizes = [rng.randint(3, 6) for _ in range(npoly)]
+        j = rng.randrange(npoly - 1)
+        sizes2 = list(sizes)
+        if sizes2[j + 1] > 3 and rng.random() < 0.5:
+            sizes2[j] += 1
+            sizes2[j + 1] -= 1
+        elif sizes2[j] > 3:
+            sizes2[j] -= 1
+            sizes2[j + 1] += 1
+        else:
+            sizes2[j] += 1
+            sizes2[j + 1] -= 1
+            if sizes2[j + 1] < 3:
+                continue
+        total = sum(sizes)
+        pts = np.array([[float(i % 5), float(i // 5) + 0.25 * (i % 2), 0.0] for i in range(total)])
+
+        def polys(sz):
+            out, k0 = np.empty(len(sz), dtype=object), 0
+            for i_, n_ in enumerate(sz):
+                idx = list(range(k0, k0 + n_))
+                rng.shuffle(idx)                       # corner order within a polygon is irrelevant for the comparison
+                out[i_] = np.array(idx, dtype=np.int64)
+                k0 += n_
+            return out
+        same = rng.random() < 0.25
+        canon = {"kind": "polygon boundaries", "sizes_a": sizes, "sizes_b": sizes if same else sizes2}
+        try:
+            with quiet():
+                warnings.simplefilter("ignore")
+                extra = [(CellType.from_name("TRIANGLE"), np.array([[0, 1, 2]]))] if rng.random() < 0.3 else []
+                ma = Mesh(pts, extra + [(CellType.from_name("POLYGON"), polys(sizes))])
+                mb = Mesh(pts.copy(), extra + [(CellType.from_name("POLYGON"), polys(sizes if same else sizes2))])
+                if PermutedMesh is not None and rng.random() < 0.4:
+                    ma = PermutedMesh(ma)
+                got = (bool(ma.equals(mb)), bool(mb.equals(ma)))
+        except Exception as e:  # noqa: BLE001
+            ctx.violation("E4", f"equals on polygon meshes raised {type(e).__name__}: {e}", canon)
+            continue
+        ctx.case(canon, True, sample={"case": canon, "impl": got})
+        ctx.count(f"c16:polygon boundaries:{'same' if same else 'shifted'}")
+        if got != (same, same):
+            ctx.violation("E4", f"polygon meshes with corner counts {sizes} and {canon['sizes_b']} on the same points: equals answers {got}, "
+                                f"the statement requires {(same, same)}", canon)
         ctx.traces_validated += 1
     # (1c) tolerances set by the user on a STRUCTURED mesh (image / rectilinear / structured grid): what is set is what is reported
     #      and what decides — a grid shifted by `shift` along one direction is equal iff shift <= max(rel*|coordinate|, abs)
